@@ -35,8 +35,22 @@ def locals_of(fn):
     return out
 
 
+def params_of(fn, tree_all_keywords):
+    """Parameters of a private function that no call site passes by keyword."""
+    if not fn.name.startswith("_") or fn.name.startswith("__"):
+        return []
+    a = fn.args
+    out = []
+    for x in a.posonlyargs + a.args:
+        if x.arg in ("self", "cls") or x.arg in tree_all_keywords:
+            continue
+        out.append(x.arg)
+    return out
+
+
 def job(a):
-    rel, fname, lineno, nm = a
+    rel, fname, lineno, nm = a[:4]
+    is_param = len(a) > 4
     d = tempfile.mkdtemp(prefix="xsm_alpha_")
     try:
         dst = os.path.join(d, "xstate_statemachine")
@@ -51,6 +65,8 @@ def job(a):
         for x in ast.walk(fn):
             if isinstance(x, ast.Name) and x.id == nm:
                 x.id = new
+            elif is_param and isinstance(x, ast.arg) and x.arg == nm:
+                x.arg = new
         open(p, "w", encoding="utf8").write(ast.unparse(tree) + "\n")
         r = subprocess.run(["/venv/bin/python", f"{V}/tools/run_all.py", dst], capture_output=True, text=True, cwd=V)
         res = json.loads(r.stdout.strip().splitlines()[-1])
@@ -65,6 +81,13 @@ def main():
     j = int(sys.argv[sys.argv.index("-j") + 1]) if "-j" in sys.argv else 8
     mods = sys.argv[sys.argv.index("--modules") + 1].split(",") if "--modules" in sys.argv else None
     jobs = []
+    global ALL_KW
+    ALL_KW = set()
+    for root, dirs, files in os.walk(SRC):
+        for fn_ in files:
+            if fn_.endswith(".py"):
+                t_ = ast.parse(open(os.path.join(root, fn_), encoding="utf8").read())
+                ALL_KW |= {k.arg for x in ast.walk(t_) if isinstance(x, ast.Call) for k in x.keywords if k.arg}
     for root, dirs, files in os.walk(SRC):
         dirs[:] = [x for x in dirs if x != "__pycache__"]
         for fn_ in sorted(files):
@@ -74,6 +97,12 @@ def main():
             if mods and rel not in mods:
                 continue
             tree = ast.parse(open(os.path.join(root, fn_), encoding="utf8").read())
+            if "--params" in sys.argv:
+                kws = {k.arg for x in ast.walk(tree) if isinstance(x, ast.Call) for k in x.keywords if k.arg}
+                for f in functions(tree):
+                    for nm in params_of(f, ALL_KW):
+                        jobs.append((rel, f.name, f.lineno, nm, "param"))
+                continue
             for f in functions(tree):
                 for nm in locals_of(f):
                     jobs.append((rel, f.name, f.lineno, nm))
